@@ -397,6 +397,21 @@ class Evaluator:
             if op in cmpf:
                 return C(1, 1 if cmpf[op] else 0)
             return T
+        if op in ('Sub', 'Add', 'BitOr', 'BitXor', 'Shl', 'Shr') and isinstance(b, C) and b.v == 0 and isinstance(a, (S, C)):
+            return a
+        # addition of vectors that are never both non-zero at the same position: no carry, the sum is the bitwise or
+        if op == 'Add' and isinstance(a, (S, C)) and isinstance(b, (S, C)):
+            w = max(a.w, b.w)
+            ab, bb = to_bits(a, w), to_bits(b, w)
+            if all(x == '0' or y == '0' for x, y in zip(ab, bb)):
+                return norm([y if x == '0' else x for x, y in zip(ab, bb)])
+            # overlapping: exact below the lowest position where both can be set; there the sum bit is the exclusive or of the
+            # two (no carry comes in from below); above it the bits depend on carries and are unknown
+            p = min(i for i, (x, y) in enumerate(zip(ab, bb)) if x != '0' and y != '0')
+            x, y = ab[p], bb[p]
+            if x != y and '?' not in (x, y):
+                low = [v if u == '0' else u for u, v in list(zip(ab, bb))[:p]]
+                return S(low + ['(%s^%s)' % (x, y)] + ['?'] * (w - p - 1))
         # multiplication / division of a bit vector by a constant power of two (or by zero)
         if op in ('Mul', 'MulWithOverflow', 'Div') and (isinstance(a, S) or isinstance(b, S)):
             x, c = (a, b) if isinstance(b, C) else ((b, a) if isinstance(a, C) and op != 'Div' else (None, None))
